@@ -99,7 +99,7 @@ Definition compare (s0 : sess) (m : mrun) (o : obs) : Z :=
   else
     let acks := count (fun a => match a with AHotRestartAck _ true => true | _ => false end) (m_acts m) in
     if negb (acks =? o_acks o) then 6
-    else if negb ((if 0 <? acks then c_hotRestartDoneState else c_defaultState) =? o_state o) then 7
+    else if negb (s_state (m_sess m) =? o_state o) then 7
     else if negb (zlist_eqb (if s_has_manager s0 then posted_epochs (m_acts m) else []) (o_posted o)) then 8
     else if negb (m_left m =? o_leftover o) then 9
     else 0.
@@ -127,11 +127,12 @@ Definition mismatches := mismatches_from 0.
 Definition model_run (c : ecase) (k : nat) := run_pieces (e_sess c) [] (e_bytes c) (nth k (e_cuts c) []).
 
 (* ---------------- handshake metadata ---------------- *)
-Record metacase := { mc_body : list Z; mc_panic : bool; mc_q : list Z; mc_b : list Z }.
+Record metacase := { mc_body : list Z; mc_panic : bool; mc_err : bool; mc_q : list Z; mc_b : list Z }.
 Definition meta_ok (c : metacase) : bool :=
   match extract_shm_metadata (mc_body c) with
   | MetaPanic => mc_panic c
-  | MetaOk q b => negb (mc_panic c) && zlist_eqb (map u8 q) (mc_q c) && zlist_eqb (map u8 b) (mc_b c)
+  | MetaErr => negb (mc_panic c) && mc_err c
+  | MetaOk q b => negb (mc_panic c) && negb (mc_err c) && zlist_eqb (map u8 q) (mc_q c) && zlist_eqb (map u8 b) (mc_b c)
   end.
 Fixpoint meta_mismatches_from (n : nat) (cs : list metacase) : list nat :=
   match cs with
